@@ -426,7 +426,9 @@ func init() {
 			cfg.MaxTypeDepth = 3
 			p := pgen.Generate(c.Seed*977+int64(i), cfg)
 			c09Tweak(rng, p)
+			pgen.MultiLinePct = []int{0, 40, 80}[(i/3)%3]
 			files := p.Print()
+			pgen.MultiLinePct = 0
 			inp := c09Input{Files: map[string]string{}, MultiFile: p.NFiles > 0}
 			pc := []int{0, 10, 30}[i%3]
 			dangling := i%2 == 0
